@@ -287,7 +287,7 @@ def tasks_for(pid, tier):
         rest = [1, 2, 3, 5, 8]
         return ds("life", 3 if q else 4, tiny, jobs=4) + ds("life", 2 if q else 3, rest, jobs=8)
     if pid == "C19":
-        small = [0, 1, 4, 5, 7, 8, 10, 11, 12, 14, 18, 20, 21, 22]
+        small = [0, 1, 4, 5, 7, 8, 10, 11, 12, 14, 18, 20, 21, 22, 23, 24]
         mid = [2, 3, 6, 9, 13, 15, 16, 19]
         return (ds("block", 2 if q else 3, small, jobs=4) + ds("block", 1 if q else 2, mid, jobs=8) +
                 ds("block", 0 if q else 1, [17], jobs=8))
